@@ -1783,7 +1783,9 @@ def generate_fds(repo):
             "    the descriptors the kernel hands out -/",
             "structure FS where\n" + "".join(f"  {fld(v)} : {LEAN_TYPE[t]}\n" for v, t in fvars.items()), "\n\n".join(defs), "",
             "end Nstd.Args.GenF", ""]
-    return "\n".join(out)
+    # every definition of this file is a simp lemma: the proofs of PropsOpen.lean do not name the numbered blocks, so a reordering of
+    # the close calls / member assignments (same table transformer) does not break them
+    return re.sub(r"(?m)^def ", "@[simp] def ", "\n".join(out))
 
 
 def generate_sel(repo):
